@@ -976,7 +976,7 @@ func (interp *Interpreter) cfg(root *node, sc *scope, importPath, pkgName string
 				n.typ = dest.typ
 				n.findex = dest.findex
 				n.level = dest.level
-			case n.anc.kind == returnStmt:
+			case directReturn(n, sc.def):
 				// To avoid a copy in frame, if the result is to be returned, store it directly
 				// at the frame location reserved for output arguments.
 				n.findex = childPos(n)
@@ -1209,7 +1209,7 @@ func (interp *Interpreter) cfg(root *node, sc *scope, importPath, pkgName string
 				wireChild(n)
 				if typ := c0.typ; len(typ.ret) > 0 {
 					n.typ = typ.ret[0]
-					if n.anc.kind == returnStmt && n.typ.id() == sc.def.typ.ret[0].id() {
+					if directReturn(n, sc.def) && n.typ.id() == sc.def.typ.ret[0].id() {
 						// Store the result directly to the return value area of frame.
 						// It can be done only if no type conversion at return is involved.
 						n.findex = childPos(n)
@@ -1243,9 +1243,9 @@ func (interp *Interpreter) cfg(root *node, sc *scope, importPath, pkgName string
 					case "unsafe.alignOf", "unsafe.Offsetof", "unsafe.Sizeof":
 						n.gen = nop
 					}
-				case n.anc.kind == returnStmt:
+				case directReturn(n, sc.def):
 					// Store result directly to frame output location, to avoid a frame copy.
-					n.findex = 0
+					n.findex = childPos(n)
 				case bname == "cap" && isInConstOrTypeDecl(n):
 					t := n.child[1].typ.TypeOf()
 					for t.Kind() == reflect.Ptr {
@@ -1346,7 +1346,7 @@ func (interp *Interpreter) cfg(root *node, sc *scope, importPath, pkgName string
 						}
 					} else {
 						n.typ = valueTOf(typ.Out(0))
-						if n.anc.kind == returnStmt {
+						if directReturn(n, sc.def) {
 							n.findex = childPos(n)
 						} else {
 							n.findex = sc.add(n.typ)
@@ -1399,7 +1399,7 @@ func (interp *Interpreter) cfg(root *node, sc *scope, importPath, pkgName string
 				}
 				if typ := c0.typ; len(typ.ret) > 0 {
 					n.typ = typ.ret[0]
-					if n.anc.kind == returnStmt && n.typ.id() == sc.def.typ.ret[0].id() {
+					if directReturn(n, sc.def) && n.typ.id() == sc.def.typ.ret[0].id() {
 						// Store the result directly to the return value area of frame.
 						// It can be done only if no type conversion at return is involved.
 						n.findex = childPos(n)
@@ -2270,7 +2270,7 @@ func (interp *Interpreter) cfg(root *node, sc *scope, importPath, pkgName string
 				n.typ = dest.typ
 				n.findex = dest.findex
 				n.level = dest.level
-			case n.anc.kind == returnStmt:
+			case directReturn(n, sc.def):
 				pos := childPos(n)
 				n.typ = sc.def.typ.ret[pos]
 				n.findex = pos
@@ -2900,6 +2900,14 @@ func isBinCall(n *node, sc *scope) bool {
 		}
 	}
 	return c0.typ.cat == valueT && c0.typ.rtype.Kind() == reflect.Func
+}
+
+// directReturn returns true if the value of n, operand of a return statement of function def, can be stored
+// directly in the result area of the frame while it is computed. This is not the case when
+// several values are returned from a function with named results: a result can then be an
+// operand of the same statement, and must keep its value until all operands are evaluated.
+func directReturn(n, def *node) bool {
+	return n.anc.kind == returnStmt && (len(n.anc.child) == 1 || mustReturnValue(def.child[2]))
 }
 
 func mustReturnValue(n *node) bool {
